@@ -54,6 +54,9 @@ def items(i, n, tier):
         out += [SEQ(("not", REF("R")), REF("S")), SEQ(("and", REF("S")), REF("S"))]
         # optional, repeated and suppressed references in front of the reference that yields the result
         out += [SEQ(("opt", REF("R")), REF("S")), SEQ(("star", REF("R"), None, False), REF("S")), SEQ(("sup", REF("R")), REF("S"))]
+        # a group in front: one of its alternatives yields no object, so the reference after the group can be the result as well / every
+        # alternative yields an object, so it cannot
+        out += [SEQ(ALT(L("a"), REF("R")), REF("S")), SEQ(ALT(REF("R"), REF("S")), REF("R"))]
     if small:
         if i == n - 1:
             # only in the last rule: a guarded reference back to an earlier rule followed by a common rule
@@ -128,16 +131,29 @@ def inh(st, e):
     if k == "seq":
         out = []
         for x in e[1]:
-            r = inh(st, x)
-            for c in r:
+            for c in inh(st, x):
                 if c not in out:
                     out.append(c)
-            if r and x[0] not in ("opt", "star"):
-                break  # this element always yields the result when the alternative matches; optional ones may be absent
+            if always(st, x):
+                break  # this element yields the result whenever the alternative matches; what follows cannot be the result
         return out
     if k in ("opt", "star", "plus"):
         return inh(st, e[1])
     return []  # predicates and suppressed matches yield nothing
+
+
+def always(st, e):
+    """does every way of matching e yield an object (so that nothing after it in a sequence can be the result)?"""
+    k = e[0]
+    if k == "ref":
+        return e[1] in st.rules and st.kind_of(e[1]) != "match"
+    if k == "alt":
+        return all(always(st, x) for x in e[1])
+    if k == "seq":
+        return any(always(st, x) for x in e[1])
+    if k == "plus":
+        return always(st, e[1])
+    return False  # optional / repeated-from-zero elements may be absent; literals, predicates and suppressed matches yield nothing
 
 
 def conforms(st, cls, rule):
